@@ -148,7 +148,9 @@ class Interp:
                 x = self.point(op[1])
                 for xs, vs in self.seen:
                     if np.array_equal(xs, x):
-                        return self._compare(x, vs, self.cap(x), "history.repeat_differs")
+                        with expect_ok("history.reevaluation_of_a_good_vector_raises"):
+                            v1 = self.cap(x)
+                        return self._compare(x, vs, v1, "history.repeat_differs")
                 try:
                     v = self.cap(x)
                 except Exception:  # noqa: BLE001  (the domain of x is not restricted by the statement)
@@ -161,7 +163,9 @@ class Interp:
                 x, v0 = self.seen[op[1] % len(self.seen)]
                 if len(self.seen) > 1 and (op[1] % len(self.seen)) != len(self.seen) - 1:
                     self.flags.add("return")
-                self._compare(x, v0, self.cap(x), "history.value_depends_on_history")
+                with expect_ok("history.reevaluation_of_a_good_vector_raises"):
+                    v1 = self.cap(x)  # x was evaluated without error before: it must evaluate again
+                self._compare(x, v0, v1, "history.value_depends_on_history")
             elif name == "raise":
                 x = self.x0.copy()
                 if x.size == 0:
@@ -195,7 +199,9 @@ class Interp:
                 x, v0 = self.seen[op[1] % len(self.seen)]
                 with expect_ok("fresh.setup"):
                     cap2 = capture.open_objective(build_scheme(self.kind, self.case, add_svd=False))
-                self._compare(x, v0, cap2(x), "fresh.optimizer_differs")
+                with expect_ok("fresh.evaluation_of_a_good_vector_raises"):
+                    v2 = cap2(x)
+                self._compare(x, v0, v2, "fresh.optimizer_differs")
                 self.flags.add("fresh")
             elif name == "threads":
                 import numba
